@@ -245,10 +245,10 @@ func (c *cutCtx) usageServiceNamesDrift(restoredCount string) bool {
 	return err == nil && got == want
 }
 
-func (c *cutCtx) serviceRow(node, id string) map[string]string {
+func (c *cutCtx) serviceRow(node, id, peer string) map[string]string {
 	for _, r := range c.b["services"] {
 		f := topFields(r)
-		if f["PeerName"] == "" && strings.EqualFold(unq(f["Node"]), node) && strings.EqualFold(unq(f["ServiceID"]), id) {
+		if f["PeerName"] == peer && strings.EqualFold(unq(f["Node"]), node) && strings.EqualFold(unq(f["ServiceID"]), id) {
 			return f
 		}
 	}
@@ -555,7 +555,7 @@ func (c *cutCtx) changedRow(t string, fa, fb map[string]string, rawA, rawB strin
 			}
 		}
 	case "checks":
-		if sr := c.serviceRow(unq(fb["Node"]), unq(fb["ServiceID"])); sr != nil {
+		if sr := c.serviceRow(unq(fb["Node"]), unq(fb["ServiceID"]), fb["PeerName"]); sr != nil {
 			if diff["ServiceTags"] && sr["ServiceTags"] == fb["ServiceTags"] {
 				add("checks:ServiceTags:stale-online-copy", desc)
 				explained("ServiceTags")
